@@ -13,6 +13,7 @@ import (
 	"sort"
 	"strconv"
 	"strings"
+	"sync/atomic"
 	"time"
 )
 
@@ -63,6 +64,9 @@ type Ctx struct {
 	start    time.Time
 	deadline time.Time
 	curIndex int64
+	lastTake int64
+	finished bool
+	stage    string
 	maxViol  int
 	Params   map[string]string
 }
@@ -109,8 +113,39 @@ func Start() *Ctx {
 	c.res.Classes = map[string]int64{}
 	c.res.Extra = map[string]int64{}
 	c.res.Exhaustive = true
+	c.lastTake = time.Now().UnixNano()
+	limit := 120
+	if s := os.Getenv("VERIF_CASE_TIMEOUT_S"); s != "" {
+		if v, err := strconv.Atoi(s); err == nil && v > 0 {
+			limit = v
+		}
+	}
+	go c.watchdog(time.Duration(limit) * time.Second)
 	return c
 }
+
+// watchdog turns a case that does not return (a hang in the code under test) into a recorded
+// violation instead of a stuck worker: the main goroutine is busy inside the case, so touching the
+// result here is safe enough; the process exits right after writing it.
+func (c *Ctx) watchdog(limit time.Duration) {
+	for {
+		time.Sleep(time.Second)
+		if c.finished {
+			return
+		}
+		last := atomic.LoadInt64(&c.lastTake)
+		if time.Since(time.Unix(0, last)) > limit {
+			c.res.NViolations++
+			c.res.Violations = append(c.res.Violations, Violation{Index: atomic.LoadInt64(&c.curIndex), Key: c.Job + " hang", Msg: fmt.Sprintf("case %d did not return within %v (non-termination or extreme slowdown in the code under test)", c.curIndex, limit), Detail: map[string]interface{}{"stage": c.stage}})
+			c.res.Exhaustive = false
+			c.Finish()
+			os.Exit(3)
+		}
+	}
+}
+
+// Stage labels what the current case is doing (reported if the case hangs).
+func (c *Ctx) Stage(s string) { c.stage = s }
 
 // Thorough reports the tier.
 func (c *Ctx) Thorough() bool { return c.Tier == "thorough" }
@@ -120,7 +155,8 @@ func (c *Ctx) Thorough() bool { return c.Tier == "thorough" }
 func (c *Ctx) Take() bool {
 	i := c.idx
 	c.idx++
-	c.curIndex = i
+	atomic.StoreInt64(&c.curIndex, i)
+	atomic.StoreInt64(&c.lastTake, time.Now().UnixNano())
 	if c.Only >= 0 {
 		if i != c.Only {
 			return false
@@ -246,6 +282,7 @@ func (c *Ctx) DeadlineHit() bool { return c.res.DeadlineHit }
 
 // Finish writes the result file (and the key file next to it).
 func (c *Ctx) Finish() {
+	c.finished = true
 	c.res.Cases = c.idx
 	c.res.Completed = true
 	c.res.WallS = time.Since(c.start).Seconds()
